@@ -35,7 +35,7 @@ class LiveManager:
         self.exc = None
         self.thread = threading.Thread(target=self._run, daemon=True)
         self.thread.start()
-        for _ in range(5000):
+        for _ in range(60000):
             if self.srv.server is not None or not self.thread.is_alive():
                 break
             threading.Event().wait(0.001)
@@ -62,11 +62,11 @@ class LiveManager:
         data = b""
         try:
             s.settimeout(timeout)
-            s.sendall(line + b"\n")
             try:
+                s.sendall(line + b"\n")
                 s.shutdown(socket.SHUT_WR)
             except OSError:
-                pass
+                pass        # a manager that is gone resets the connection: an observation (no reply), not a failure
             while True:
                 try:
                     b = s.recv(65536)
